@@ -275,7 +275,15 @@ fn arena_json(g: &Graph) -> Value {
 
 struct St {
     g: Graph,
+    db: Option<liwe::database::Database>,
     texts: HashMap<String, String>,
+}
+
+fn gr(st: &St) -> &Graph {
+    match &st.db {
+        Some(db) => db.graph(),
+        None => &st.g,
+    }
 }
 
 fn key(v: &Value) -> Key {
@@ -304,28 +312,34 @@ fn run_op(st: &mut St, op: &Value) -> Value {
         }
         "update" => {
             let k = key(op);
-            st.g.update_key(k, op["text"].as_str().unwrap());
+            match st.db.as_mut() {
+                Some(db) => db.update_document(k, op["text"].as_str().unwrap().to_string()),
+                None => {
+                    st.g.update_key(k, op["text"].as_str().unwrap());
+                }
+            }
             json!({})
         }
+        "content" => json!(st.db.as_ref().and_then(|db| db.get_document(&key(op)))),
         "import" => {
             let mut state = HashMap::new();
             for (k, v) in op["state"].as_object().unwrap() {
                 state.insert(k.clone(), v.as_str().unwrap().to_string());
             }
-            st.g = Graph::import(&state, MarkdownOptions::default());
-            st.g.set_sequential_keys(true);
+            // a server start: Database::new = import + search paths + raw texts
+            st.db = Some(liwe::database::Database::new(state, false, MarkdownOptions::default()));
             json!({})
         }
-        "arena" => arena_json(&st.g),
+        "arena" => arena_json(gr(st)),
         "action" => run_action(&st.g, op["provider"].as_str().unwrap(), op["target"].as_u64().unwrap()),
         "keys" => {
             let mut m = serde_json::Map::new();
-            for k in st.g.keys() {
-                m.insert(k.to_string(), json!((&st.g).get_node_id(&k)));
+            for k in gr(st).keys() {
+                m.insert(k.to_string(), json!(gr(st).get_node_id(&k)));
             }
             Value::Object(m)
         }
-        "collect" => tree_json(&(&st.g).collect(&key(op))),
+        "collect" => tree_json(&gr(st).collect(&key(op))),
         "copy_collect" => {
             // the copy path of patch graphs: collected tree -> Graph::build_key_from_iter -> collect
             let k = key(op);
@@ -355,17 +369,17 @@ fn run_op(st: &mut St, op: &Value) -> Value {
             let d = liwe::graph::Reader::document(&MarkdownReader::new(), op["text"].as_str().unwrap());
             json!(format!("{:?}", d.blocks))
         }
-        "block_refs_to" => json!(st.g.get_block_references_to(&key(op))),
-        "inline_refs_to" => json!(st.g.get_inline_references_to(&key(op))),
+        "block_refs_to" => json!(gr(st).get_block_references_to(&key(op))),
+        "inline_refs_to" => json!(gr(st).get_inline_references_to(&key(op))),
         "block_refs_in" => json!(st.g.get_block_references_in(&key(op))),
-        "title" => json!(st.g.get_key_title(&key(op))),
+        "title" => json!(gr(st).get_key_title(&key(op))),
         "metadata" => {
             // front-matter as the exported text carries it
             let k = key(op);
-            if (&st.g).get_node_id(&k).is_none() {
+            if gr(st).get_node_id(&k).is_none() {
                 json!(null)
             } else {
-                let md = st.g.to_markdown(&k);
+                let md = gr(st).to_markdown(&k);
                 if md.starts_with("---\n") {
                     let rest = &md[4..];
                     json!(rest.find("---\n").map(|i| rest[..i].to_string()))
@@ -374,10 +388,10 @@ fn run_op(st: &mut St, op: &Value) -> Value {
                 }
             }
         }
-        "node_id_at" => json!((&st.g).get_node_id_at(&key(op), op["line"].as_u64().unwrap() as usize)),
+        "node_id_at" => json!(gr(st).get_node_id_at(&key(op), op["line"].as_u64().unwrap() as usize)),
         "line_range" => json!(st.g.node_line_range(op["id"].as_u64().unwrap()).map(|r| vec![r.start, r.end])),
         "key_of" => json!((&st.g).key_of(op["id"].as_u64().unwrap()).to_string()),
-        "paths" => json!(st.g.paths().iter().map(|p| p.ids()).collect::<Vec<_>>()),
+        "paths" => json!(gr(st).paths().iter().map(|p| p.ids()).collect::<Vec<_>>()),
         "link_pos" => {
             // first link of the document: its inline range (line, character)
             let d = liwe::graph::Reader::document(&MarkdownReader::new(), op["text"].as_str().unwrap());
@@ -422,7 +436,7 @@ fn main() {
             continue;
         }
         let script: Value = serde_json::from_str(line).unwrap();
-        let mut st = St { g: Graph::new(), texts: HashMap::new() };
+        let mut st = St { g: Graph::new(), db: None, texts: HashMap::new() };
         st.g.set_sequential_keys(true);
         let _ = &st.texts;
         let mut out = vec![];
